@@ -1431,9 +1431,10 @@ def body(R):
     pre2c_quick = [["call", "inc"], ["var", "v", "dbl"], ["filter", "even"], ["slice", [2]], ["slice", [1, 3]],
                    ["runif", "even", [["dup"]]]]
     pre2c = [[]] + [[p_] for p_ in (pre2c_quick if not thorough else PRE_SMALL)]
-    accs2c = [["store", False], ["sum"]] if not thorough else [["store", False], ["sum"], ["count"], ["mean", True]]
+    accs2c = [["store", False], ["sum"]]
     chains2c = [(list(pres), acc, []) for pres in pre2c for acc in accs2c]
     if thorough:
+        chains2c += [([], acc, []) for acc in (["count"], ["mean", True], ["hist"])]
         chains2c += [([p_], ["store", False], []) for p_ in PRE_MORE]
     maxL2c = 5
     flows2c = [("nested", L) for L in range(0, maxL2c + 1)] + [("mixed", 4)]
@@ -1441,7 +1442,7 @@ def body(R):
     # (before, after) around the chain; "@" is the stopping companion
     layouts = [(("@",), ()), (("@",), ("fcallmut",)), (("seqmut", "@"), ()), ((), ("@",))]
     if thorough:
-        layouts += [(("@",), ("seq", "fcall")), (("frallmut", "@"), ("fc",)), (("@", "src"), ("fcallmut",))]
+        layouts += [(("frallmut", "@"), ("fc",)), (("@", "src"), ("seq", "fcallmut"))]
     R.scope("drivers: the chain as a Split branch next to branches that update values in place and then stop",
             "%d chains: <= 1 pre element from %d pre kinds x %d accumulators%s, no post; flows of (data, nested "
             "context) values of length L = 0..%d and one mixed flow of 4; a companion branch (in-place update, Slice(K), "
@@ -1449,7 +1450,8 @@ def body(R):
             "companion, fcallmut / frallmut / seqmut = never-stopping fill-compute / fill-request / Sequence branches "
             "that update in place); Split bufsize in {1..L+1, None}; copy_buf=True"
             % (len(chains2c), len(pre2c) - 1, len(accs2c),
-               " plus %d more pre kinds with StoreFilled" % len(PRE_MORE) if thorough else "", maxL2c, stop_types,
+               " plus Count / Mean / Histogram without pre element and %d more pre kinds with StoreFilled" % len(PRE_MORE)
+               if thorough else "", maxL2c, stop_types,
                layouts), True)
     for chain in chains2c:
         for fk, L in flows2c:
@@ -1474,11 +1476,11 @@ def body(R):
             "incl. Split-of-accumulators, 0..3 post elements (negative Slice, Reverse, Count, second accumulator, End, "
             "RunningChunkBy, ...); flows of length 0..8 with/without/mixed contexts; Split bufsize from {1..L+1, 1000, "
             "None}, chain first/middle/last among source / fill-compute / sequence companions, copy_buf on/off; "
-            "with copy_buf on also among 0..5 companions that update their values in place (fill-compute / fill-request "
+            "with copy_buf on also (thorough: for every second chain) among 0..5 companions that update their values in place (fill-compute / fill-request "
             "/ Sequence branches, with a Slice(K <= L) behind the updating element or never stopping)"
             % (n3, len(ACC_SMALL) + len(ACC_MORE)), False)
     comps = ["fc", "fcall", "seq", "src"]
-    for _ in range(n3):
+    for i3 in range(n3):
         pre = [rand_pre(rng) for _ in range(rng.choice([0, 1, 2, 2, 3, 3, 4]))]
         chain = (pre, rand_acc(rng), rand_post(rng))
         flow = rand_flow(rng, 8)
@@ -1492,7 +1494,7 @@ def body(R):
             after = tuple(rng.choice(comps) for _ in range(rng.choice([0, 1, 2])))
             drivers.append(["split", rng.choice(bs), rng.choice(["tuple", "fcs"]), before, after, rng.random() < 0.8])
         # companions that update their values in place (only meaningful with copy_buf=True)
-        for _k in range(1):
+        for _k in range(1 if (not thorough or i3 % 2 == 0) else 0):
             mcomps = comps + ["seqmut", "fcallmut", "frallmut"] + \
                 ["%s:%d" % (t, rng.randint(0, L)) for t in MUTATING_STOPPING for _ in range(2)]
             before = tuple(rng.choice(mcomps) for _ in range(rng.choice([0, 1, 1, 2, 3])))
